@@ -13,6 +13,21 @@ def rates():
         _RATES = {(c, y, m): F(v) for c, y, m, v in r["rates"]}
     return _RATES
 
+def xml_table():
+    """The bundled HMRC files read independently of the code: {(code, year, month): set of rates listed under that code}"""
+    import glob
+    out = defaultdict(set)
+    for p in sorted(glob.glob("/repo/crates/cgt-money/resources/rates/*.xml")):
+        mt = re.fullmatch(r"(\d{4})-(\d{2})\.xml", os.path.basename(p))
+        if not mt: continue
+        y, m = int(mt.group(1)), int(mt.group(2))
+        for blk in re.findall(r"<exchangeRate>(.*?)</exchangeRate>", open(p, encoding="utf-8", errors="replace").read(), re.S):
+            c = re.search(r"<currencyCode>(.*?)</currencyCode>", blk, re.S); r = re.search(r"<rateNew>(.*?)</rateNew>", blk, re.S)
+            if c and r:
+                try: out[(c.group(1).strip().upper(), y, m)].add(F(r.group(1).strip()))
+                except Exception: pass
+    return out
+
 CURS = ["USD", "EUR", "JPY", "CHF", "AUD", "SEK"]
 def foreignize(rng, lines, months_ok=True):
     out = []
@@ -67,6 +82,22 @@ def k_c08(ctx):
     rng = ctx.rng; table = rates()
     ctx.count("bundled_rates", len(table))
     months = sorted({(y, m) for (_, y, m) in table})
+    # ---------- (0) the bundled table against the HMRC files themselves ----------
+    xt = xml_table(); codes = {c for (c, _, _) in table} | {c for (c, _, _) in xt if len(c) == 3}
+    valid = {c["code"] if isinstance(c, dict) else c for c in run.run_harness([{"id": "c", "op": "currencies"}])["c"].get("codes", [])} or None
+    ctx.count("hmrc_file_rows", sum(len(v) for v in xt.values()))
+    bad_keys = []
+    for k, v in table.items():
+        ctx.evaluations += 1
+        if k not in xt: bad_keys.append((k, "the file for that month has no row for this currency code", v))
+        elif v not in xt[k]: bad_keys.append((k, "the file lists %s" % sorted(map(str, xt[k])), v))
+    for k in xt:
+        if k not in table and (valid is None or k[0] in valid) and (k[1], k[2]) in months and len(xt[k]) == 1: bad_keys.append((k, "listed in the file but not loaded", None))
+    for k, why, v in bad_keys[:3]:
+        c, y, m = k
+        dsl = "%04d-%02d-10 BUY PROBE 1 @ 1000000 %s\n" % (y, m, c)
+        x = run.run_harness([{"id": "p", "op": "to_gbp", "dsl": dsl}])["p"]
+        ctx.violation("bundled rate for %s %d-%02d is %s but %s" % (c, y, m, v, why), {"input_dsl": dsl, "code": x, "hmrc_file": "crates/cgt-money/resources/rates/%04d-%02d.xml" % (y, m)}, found_input=True)
     # ---------- (1) conversions and twins ----------
     cases = {}
     for i in range(ctx.n(700, 15000)):
@@ -243,5 +274,23 @@ def folders(ctx, table, months):
                     ctx.violation("with the %s folder %s costs %s, expected %s (rate %s)" % (kind, t, float(hold[t]), float(want), float(exp[t])), replay, found_input=True); break
                 if mr_ != exp[t]:
                     ctx.violation("correspondence K.C08.load broken: model rate %s for %s, expected %s" % (mr_, t, exp[t]), dict(replay, correspondence="K.C08.load"), found_input=False); break
+        # a folder file whose rows carry codes that are not (or no longer) ISO currencies replaces nothing:
+        # the report of a ledger in other currencies of that month is the same with and without the folder
+        pool = sorted({c for (c, yy, mm) in table if c not in ("USD", "EUR")})
+        for i in range(ctx.n(12, 150)):
+            wd = os.path.join(root, "u%d" % i); fx = os.path.join(wd, "fx"); os.makedirs(fx)
+            y, mth = rng.choice([mo for mo in months if mo[0] >= 2016])
+            here = [c for c in pool if (c, y, mth) in table]
+            probes = rng.sample(here, min(4, len(here))) + [c for c in ("MRU", "STN", "VES", "BYN", "ZWG", "SLE") if (c, y, mth) in table]
+            odd = rng.sample(["MRO", "STD", "VEF", "BYR", "ZWD", "XXZ", "QQQ", "LTL", "EEK", "US", "EURO"], 4)
+            open(os.path.join(fx, "%04d-%02d.xml" % (y, mth)), "w").write(month_xml(y, mth, [(c, rng.choice(["1.5", "7", "123.45"])) for c in odd]))
+            ls = [Line(datetime.date(y, mth, 10 + j), "P%d" % j, "BUY", "1", "1000000", c, None) for j, c in enumerate(probes)]
+            if not ls: continue
+            open(os.path.join(wd, "in.cgt"), "w").write(ledger.render(ls))
+            a = cli_report_json(wd, ["in.cgt"], []); b = cli_report_json(wd, ["in.cgt"], ["--fx-folder", "fx"])
+            ctx.evaluations += 2; ctx.count("folder_kind", "unknown_codes")
+            if a.returncode != b.returncode or (a.returncode == 0 and json.loads(a.stdout)["holdings"] != json.loads(b.stdout)["holdings"]):
+                ctx.violation("a rates file with only the codes %s changes the conversion of %s in %d-%02d" % (odd, probes, y, mth),
+                              {"ledger": ledger.render(ls), "folder_codes": odd, "without": (a.returncode, a.stdout[-400:], a.stderr[-200:]), "with": (b.returncode, b.stdout[-400:], b.stderr[-200:])}, found_input=True)
     finally:
         shutil.rmtree(root, ignore_errors=True)
